@@ -235,6 +235,7 @@ def gen_history(world: World, kind: str, length: int, weights=None, irregular_bi
     """Generate and execute one history on the real objects; returns the main object's name."""
     rng = world.rng
     world.objs = {}          # the frame oracle looks at the objects of this history only
+    world.lines.append("wreset"); world.expect.append("ok")     # and so does the model driver (its table stays small)
     CLS = world.CLS[kind]
     digital = kind == "digital"
     tag = rng.choice(SUPPORTED[kind])
